@@ -9,7 +9,13 @@
    _validations_from_uijson is PyLite output (coq/generated/PyLite_Validation.v), base_validations is extracted from
    constants.py (coq/generated/Table_UiValidations.v).  The models are FUNCTIONS of (the form as assigned, the rule table
    accumulated so far, the data, the value): whatever else the implementation lets leak from earlier forms or earlier
-   InputFiles of the process shows up as a disagreement of the histories run by tools/props/c15.py (kinds "infer", "ifv"). *)
+   InputFiles of the process shows up as a disagreement of the histories run by tools/props/c15.py (kinds "infer", "ifv").
+   No theorem is stated about this file: it is a correspondence model.
+   OUTSIDE the model (probed on /repo 73a6b77): a REJECTED `ifile.data = d` leaves the stored data and the forms unchanged, but the
+   caller's dictionary d has been promoted in place (identifiers replaced by entities) and `_geoh5` / the cached InputValidation
+   are set - effects on the argument and on caches, not on the stored data or the form the property speaks about; the model's
+   [promote] is functional.  The lazy `.data` getter restores update_enabled after a failed load (try/finally-free code, but the
+   assignment after the failing statement is not reached only when flatten itself raises; not reproduced). *)
 From Coq Require Import String.
 From GV Require Import Prelude.Base Model.PyVal Model.UiRules Model.Enforcers Model.UiForms Model.UiCodec.
 From GVgen Require Import PyLite_SharedUtils PyLite_UiUtils PyLite_Validators PyLite_Validation Table_UiValidations.
